@@ -1,6 +1,6 @@
 (* C12 -- Feed-forward layers compute their documented formulas; Linen and NNX agree. *)
 From Coq Require Import ZArith QArith.
-From Flaxm Require Import Lib.Harness Model.Layers Proofs.Layers Proofs.ConvT.
+From Flaxm Require Import Lib.Harness Model.Layers Proofs.Layers Proofs.ConvT Proofs.Conv2.
 Open Scope Z_scope.
 
 (* Conv: what the code does (jnp.pad with the boundary rule, then a VALID convolution) is the documented direct sum
@@ -48,6 +48,22 @@ Theorem C12_batchnorm_running_extremes : forall old batch, (running 1 old batch 
 Proof. exact running_extremes. Qed.
 Print Assumptions C12_batchnorm_running_extremes.
 
+(* Conv with two spatial dimensions: padding both with jnp.pad (one boundary rule) and convolving VALID is the direct sum
+   over the extended image, for every kernel, strides, dilations, grouping, boundary rule and pad amounts *)
+Theorem C12_conv2_impl_is_spec : forall c m lo1 hi1 lo2 hi2 w x,
+  rect w x -> (c2_s1 c <> 0)%nat -> (c2_s2 c <> 0)%nat ->
+  (keff1 c <= length x + lo1 + hi1)%nat -> (keff2 c <= w + lo2 + hi2)%nat ->
+  conv2_impl c m lo1 hi1 lo2 hi2 w x =
+  conv2_spec c m (Z.of_nat lo1) (Z.of_nat lo2) (olen (length x) lo1 hi1 (keff1 c) (c2_s1 c)) (olen w lo2 hi2 (keff2 c) (c2_s2 c)) x.
+Proof. exact conv2_impl_is_spec. Qed.
+Print Assumptions C12_conv2_impl_is_spec.
+Example C12_conv2_example :
+  let c := mkConv2 [[[[1]]; [[2]]]; [[[3]]; [[4]]]] None 1 1 1 1 1 1 1 in
+  let x : img := [[[1]; [2]; [3]]; [[4]; [5]; [6]]; [[7]; [8]; [9]]] in
+  conv2d c PadValid PadValid 3 x = [[[37]; [47]]; [[67]; [77]]] /\
+  conv2d c PadCircular PadCircular 3 x = [[[37]; [47]; [39]]; [[67]; [77]; [69]]; [[34]; [44]; [36]]] /\ rect 3 x.
+Proof. vm_compute. repeat split; try reflexivity. repeat constructor. Qed.
+
 (* ---- ConvTranspose (one spatial dimension): lax.conv_transpose is a stride-1 convolution over the input dilated by the
    stride; every output entry is the direct sum over the input rows x[(o + t*d - pa) / s] that the taps meet *)
 Theorem C12_convT_dilated_signal : forall s x, (1 <= s)%nat ->
@@ -87,7 +103,7 @@ Example C12_convT_example :
 Proof. vm_compute. repeat split; reflexivity. Qed.
 
 (* NOT proved (decided per run against the independent numpy reference and, for Dense / Conv1D / Embed / pooling /
-   BatchNorm statistics, against this model): DenseGeneral / Einsum axis arithmetic, 2-D convolutions, ConvLocal,
+   BatchNorm statistics, against this model): DenseGeneral / Einsum axis arithmetic, 2-D ConvTranspose, ConvLocal,
    the normalised outputs (square roots), GroupNorm / InstanceNorm / RMSNorm, Dropout, Linen = NNX. *)
 Example C12_example :
   let c := mkConv [[[1]; [0]]; [[0]; [2]]; [[1]; [1]]] (Some [1]) 2 1 1 2 1 in
